@@ -57,7 +57,7 @@ ASSUME = ["token operation (free-monoid fragment with absorbing poison) is self-
           "of the magnitudes of the translation contributions), C = 8; matrices: 8*u*i*prod ||M_j||_2",
           "a torch.Tensor subclass overriding * and @ is an admissible operand of cummul/cumprod (duck typing: the "
           "functions only use clone/index_select/index_copy_ and the operator)",
-          "only non-negative dims are used; CPU only"]
+          "plain tensors: every dim also as its negative equivalent; LieTensors: non-negative dims only (a negative dim of a LieTensor counts the component axis); CPU only"]
 
 SH = 21
 MASK = (1 << SH) - 1
@@ -210,17 +210,19 @@ def l_class(L):
     return "other"
 
 
-def token_case(ck, monitor, fname, order, shape, dim, layout="contig"):
+def token_case(ck, monitor, fname, order, shape, dim, layout="contig", negative=False):
+    """`negative`: the function is called with the equivalent negative dimension dim - rank."""
     entry, inplace, sub, fn = TOKEN_FUNCS[fname]
+    call_dim = dim - len(shape) if negative else dim
     L = shape[dim]
     x0, right, left = tokens(shape, dim)
     expect = right if order == "right" else left
     x, base = layout_of(x0, dim, layout)
     arg = x.as_subclass(Tok) if sub else x
-    regime = f"{fname}/{order}/{l_class(L)}"
-    wit0 = {"fn": fname, "order": order, "shape": list(shape), "dim": dim, "layout": layout, "L": L}
-    okc, res = ck.call(monitor, regime, entry, fn, arg, dim, order, witness=wit0)
-    ck.count(monitor, regime, key=(fname, order, tuple(shape), dim, layout), nontrivial=L > 1)
+    regime = f"{fname}/{order}/{l_class(L)}" + ("/negdim" if negative else "")
+    wit0 = {"fn": fname, "order": order, "shape": list(shape), "dim": call_dim, "layout": layout, "L": L}
+    okc, res = ck.call(monitor, regime, entry, fn, arg, call_dim, order, witness=wit0)
+    ck.count(monitor, regime, key=(fname, order, tuple(shape), call_dim, layout), nontrivial=L > 1)
     ck.mark(f"tok/{fname}/{order}")
     ck.mark(f"tok/L:{l_class(L)}")
     if not okc:
@@ -327,6 +329,7 @@ def run_token_dims(ck):
             for fname in TOKEN_FUNCS:
                 for order in ORDERS_OPS:
                     token_case(ck, "tok_dims", fname, order, shape, dim, layout)
+                    token_case(ck, "tok_dims", fname, order, shape, dim, layout, negative=True)
             ck.mark(f"dims/rank{rank}/dim{dim}")
             ck.mark(f"dims/layout:{layout}")
 
